@@ -26,7 +26,7 @@ from . import proto as P
 from .common import HarnessError, Violation
 from .simnet import LISTENER, Sim
 
-LOGLEVELS = {"error": logging.ERROR, "info": logging.INFO, "silent": logging.CRITICAL + 10, "debug": logging.DEBUG}
+LOGLEVELS = {"error": logging.ERROR, "warning": logging.WARNING, "info": logging.INFO, "silent": logging.CRITICAL + 10, "debug": logging.DEBUG}
 
 
 class MMod:
@@ -362,6 +362,7 @@ class World:
                       f"were not in the writable snapshot, but the manager never waited for a logger connection to become writable")
         if self.step_logger_waits:
             self.stats["logger-waits"] += self.step_logger_waits
+        self.step_units = len(plan)
         self._observe_all()
         self.check_alive()
 
@@ -800,6 +801,7 @@ class World:
             self._check_closed()
         if "failed" in self.oracles:
             self._check_failed()
+            self._check_cascade()
         if "info" in self.oracles:
             self._check_info()
         for m in self.mods:
@@ -807,6 +809,23 @@ class World:
                 self.viol("departure/not-closed", f"conn {m.idx} was refused or disconnected but the manager left its connection open")
             if "framing" in self.oracles and m.tracked and not m.client_closed and m.conn.manager_closed and not m.faulted:
                 self.viol("departure/closed-unexpectedly", f"manager closed conn {m.idx} {m.brief()} although it did nothing wrong")
+
+    def _check_cascade(self):
+        """An undeliverable notice or log message never produces a further one: the same log record (everything but its
+        creation time) cannot arrive more often in one round than there were frames served in that round (each record
+        needs its own triggering event; generous factor 4).  Hostile connections can repeat one error at will: skipped."""
+        if self.hmods:
+            return
+        bound = 4 * (getattr(self, "step_units", 0) + 2)
+        for idx, frs in self.step_mgr.items():
+            c = Counter((fr.msg_type, fr.payload[8:]) for fr in frs if fr.msg_type in P.MT_RTMA_LOGS)
+            if c:
+                self.stats["log-records-observed"] += sum(c.values())
+                (t, body), n = c.most_common(1)[0]
+                if n > bound:
+                    text = body[8 + 128 + 512 + 256:].split(b"\0")[0].decode("latin1")
+                    self.viol("failed/notice-cascade", f"round {self.rounds}: conn {idx} received the same log record {n} times "
+                              f"(type {t}: {text[:120]!r}) although only {self.step_units} frames were served in this round")
 
     def _check_acks(self):
         for m in self.mods:
